@@ -1,10 +1,13 @@
 #!/bin/bash
-# offline build of the framework: Lean project (all proofs + model driver) and a warm-up of the Go harness
+# offline build of the framework: Go harness, facts table regenerated from /repo, Lean project (all proofs + model drivers)
 set -e
 cd "$(dirname "$0")"
 export GOFLAGS=-mod=mod GOPROXY=off
 unset GOTOOLCHAIN GOSUMDB
-(cd lean && mkdir -p ShootVerif/Gen && lake build)
 cp /repo/go.sum harness/go.sum
-(cd harness && go build -tags verif ./... )
+(cd harness && go build -tags verif ./... && go build -tags verif -o /tmp/shootverif-facts ./cmd/facts)
+mkdir -p lean/ShootVerif/Gen
+/tmp/shootverif-facts /repo > lean/ShootVerif/Gen/Facts.lean
+rm -f /tmp/shootverif-facts
+(cd lean && lake build)
 echo setup-ok
